@@ -127,3 +127,69 @@ def _threshold_contract(name, getter, flat_result, props):
 
 IS_STARTED = _threshold_contract("is_started", "shared_started_workers", "False", ["C04"])
 IS_FINISHED = _threshold_contract("is_finished", "shared_finished_workers", "True", ["C03", "C05", "C01"])
+
+
+# ---------------------------------------------------------------- shared_results and friends
+from pyvc.kinds import VFunc, list_sort  # noqa: E402
+
+_RES_ARR = z3.ArraySort(RefSort, Seq(Ref("Result")).sort())
+prefix_reslen = z3.Function("prefix_reslen", _RES_ARR, Seq(Ref("TestNode")).sort(), z3.IntSort(), z3.IntSort())
+
+
+def _prefix_reslen_axioms():
+    R = z3.Const("ax_R", _RES_ARR)
+    B = z3.Const("ax_B", Seq(Ref("TestNode")).sort())
+    i = z3.Const("ax_i", z3.IntSort())
+    LN, LR = Seq(Ref("TestNode")), Seq(Ref("Result"))
+    return [
+        z3.ForAll([R, B], prefix_reslen(R, B, 0) == 0, patterns=[prefix_reslen(R, B, 0)]),
+        z3.ForAll([R, B, i], z3.Implies(i >= 0, prefix_reslen(R, B, i + 1) ==
+                                        prefix_reslen(R, B, i) + LR.len(z3.Select(R, LN.at(B, i)))),
+                  patterns=[prefix_reslen(R, B, i + 1)]),
+        z3.ForAll([R, B, i], z3.Implies(i >= 0, prefix_reslen(R, B, i) >= 0), patterns=[prefix_reslen(R, B, i)]),
+    ]
+
+
+def bridged_results_len(eng, st, args, kw, node):
+    """Spec function: total number of results of the first i bridged nodes of a node (current heap)."""
+    n, i = args
+    R = eng.heap_array(st, "TestNode", "results", Seq(Ref("Result")))
+    B = eng.read_field(st, n, "TestNode", "_bridged_nodes", Seq(Ref("TestNode")))
+    for ax in _prefix_reslen_axioms():
+        if ax.get_id() not in st.facts:
+            st.assume(ax)
+    yield st, V(INT, prefix_reslen(R, B.term, i.term))
+
+
+BRL = VFunc("handler", fn=bridged_results_len, name="bridged_results_len")
+RES = 'Ref("Result")'
+
+SHARED_RESULTS = Contract(
+    target=f"{NODE}::TestNode.shared_results",
+    params={"self": Ref("TestNode")},
+    requires=[WF_BRIDGED],
+    extra_names={"bridged_results_len": BRL},
+    loops={0: {
+        "invariants": [
+            "len(results) == len(self.results) + bridged_results_len(self, _i)",
+            f"forall({RES}, lambda r: implies(r in results, r in self.results or "
+            "exists(range(0, _i), lambda j: r in self._bridged_nodes[j].results)))",
+            f"forall({RES}, lambda r: implies(r in self.results, r in results))",
+            f"forall([INT, {RES}], lambda j, r: implies(0 <= j and j < _i and r in self._bridged_nodes[j].results, r in results))",
+            "forall(range(0, len(self.results)), lambda k: results[k] == self.results[k])",
+            "len(results) >= len(self.results)",
+        ],
+    }},
+    ensures=[
+        ("length", "len(result) == len(self.results) + bridged_results_len(self, len(self._bridged_nodes))"),
+        ("members_only", f"forall({RES}, lambda r: implies(r in result, r in self.results or "
+                         "exists(range(0, len(self._bridged_nodes)), lambda j: r in self._bridged_nodes[j].results)))"),
+        ("members_own", f"forall({RES}, lambda r: implies(r in self.results, r in result))"),
+        ("members_bridged", f"forall([INT, {RES}], lambda j, r: implies(0 <= j and j < len(self._bridged_nodes) and "
+                            "r in self._bridged_nodes[j].results, r in result))"),
+        ("own_first", "forall(range(0, len(self.results)), lambda k: result[k] == self.results[k])"),
+    ],
+    result_kind=Seq(Ref("Result")),
+    frame=[],
+    props=["C03", "C10"],
+)
